@@ -95,6 +95,14 @@ def matrix(tier, focus="general"):
                             opts="immix_stress_defrag=true"))
         runs.append(Run("StickyImmix", feats=["sticky_immix_non_moving_nursery"], name="sxnm",
                         programs=20, seed_off=16))
+    if focus == "nonmoving" and tier == "quick":
+        # C04: pin_object in object_pinning builds, where the policy supports the call; the
+        # sticky plan pins young objects that its nursery collections would otherwise copy
+        for p in ["Immix", "GenImmix", "StickyImmix"]:
+            runs.append(Run(p, feats=["object_pinning"], name="pin", heap=10, programs=6, ops=160,
+                            seed_off=7, sems="0,0,0,0,0,0,0,2",
+                            opts="immix_always_defrag=true,immix_defrag_every_block=true"
+                            if p == "Immix" else ""))
     if focus == "vo":
         # C07/C08: valid-object bit builds only, with lookup probes after every forced collection
         runs = [r for r in runs if "vo_bit" in r.feats]
